@@ -1,6 +1,7 @@
 package main
 
 import (
+	"crypto/elliptic"
 	"bytes"
 	"crypto/ecdsa"
 	"crypto/ed25519"
@@ -26,6 +27,8 @@ import (
 
 func init() {
 	gens["C01"] = genC01
+	// an application that uses another curve announces it to the library (needed for the JSON form of points)
+	tss.RegisterCurve("P-256", elliptic.P256())
 	gens["C02"] = genC02
 	vc.OpTimeout["ecdsa_sign"] = 120 * time.Second
 	vc.OpTimeout["eddsa_sign"] = 60 * time.Second
@@ -53,8 +56,23 @@ func optInt0(v val.V) *big.Int {
 	return nil
 }
 
-// keyref: "fixture" or "kg:<n>:<t>"
+// curveOfRef: a key reference "p256:..." names a key on NIST P-256 (a curve the application registers itself:
+// the protocol code takes the curve from its parameters); every other reference is on secp256k1.
+func curveOfRef(ref string) elliptic.Curve {
+	if strings.HasPrefix(ref, "p256:") {
+		return elliptic.P256()
+	}
+	return tss.S256()
+}
+
+// keyref: "fixture", "kg:<n>:<t>" or "p256:kg:<n>:<t>"
 func ecKeysByRef(ref string) ([]ecdsakeygen.LocalPartySaveData, tss.SortedPartyIDs, int) {
+	if strings.HasPrefix(ref, "p256:") {
+		var n, t int
+		fmt.Sscanf(ref, "p256:kg:%d:%d", &n, &t)
+		k, p := ecKeysOn(elliptic.P256(), n, t, nil)
+		return k, p, t
+	}
 	if ref == "fixture" {
 		k, p := fixtures()
 		return k, p, 2
@@ -119,9 +137,10 @@ func runECDSASign(ref string, signers []int, kis, gammas []*big.Int, m *big.Int,
 		// every signer works on its own copy with the public key and BigXj shifted by delta*G, as the HD test does
 		sk = cloneForKDD(sk, kdd)
 	}
-	rc := buildECDSASign(sk, sp, t, signOpts{msg: m, fullLen: fullLen, first: first, seed: fmt.Sprintf("c01-%d", seed), kdd: kdd})
+	rc := buildECDSASign(sk, sp, t, signOpts{msg: m, fullLen: fullLen, first: first, seed: fmt.Sprintf("c01-%d", seed), kdd: kdd, ec: curveOfRef(ref)})
 	rc.net.Rng = rand.New(rand.NewSource(seed))
 	rv := newRoundValues()
+	rv.ec = curveOfRef(ref)
 	rc.net.Tamper = rv.record
 	rc.net.Run(st, 200000)
 	sr := &signRun{net: rc.net, rounds: rv}
@@ -159,7 +178,8 @@ func lagrangeSecret(q *big.Int, ids, shares []*big.Int) *big.Int {
 
 // ecdsaOracles: the C01 predicates on one finished run, independent of the model.
 func ecdsaOracles(r *vc.Run, sr *signRun, pub *ecdsa.PublicKey, m *big.Int, fullLen int, replay string, parentPub *ecdsa.PublicKey) {
-	q := tss.S256().Params().N
+	q := pub.Curve.Params().N
+	onK1 := pub.Curve == tss.S256()
 	if m.Cmp(q) >= 0 {
 		if len(sr.sigs) > 0 || sr.emitted > 0 {
 			r.Violate("digest-not-refused", fmt.Sprintf("a digest >= q was not refused before any message was sent (%d messages, %d signatures)", sr.emitted, len(sr.sigs)), replay)
@@ -199,6 +219,19 @@ func ecdsaOracles(r *vc.Run, sr *signRun, pub *ecdsa.PublicKey, m *big.Int, full
 	if !ecdsa.Verify(pub, digest, rr, ss) {
 		r.Violate("ecdsa-invalid-signature", "crypto/ecdsa rejects the signature under the group public key", replay)
 	}
+	if !onK1 {
+		// btcec knows secp256k1 only: on another curve the recovery byte is checked from its definition
+		// (bit 0 = parity of R.y, bit 1 = R.x >= q) by recovering R and then the key: Q = r^-1 (s R - m G)
+		if len(s0.SignatureRecovery) != 1 {
+			r.Violate("ecdsa-recid-missing", "SignatureRecovery is not one byte", replay)
+		} else if !recoversTo(pub, rr, ss, m, s0.SignatureRecovery[0]) {
+			r.Violate("ecdsa-recovery-wrong", "the recovery byte does not recover the group public key", replay)
+		}
+		if parentPub != nil && ecdsa.Verify(parentPub, digest, rr, ss) {
+			r.Violate("hd-verifies-under-parent", "a signature made with a derivation offset verifies under the parent key", replay)
+		}
+		return
+	}
 	var rS, sS btcec.ModNScalar
 	rS.SetByteSlice(s0.R)
 	sS.SetByteSlice(s0.S)
@@ -224,7 +257,56 @@ func ecdsaOracles(r *vc.Run, sr *signRun, pub *ecdsa.PublicKey, m *big.Int, full
 }
 
 func toECDSAPub(k ecdsakeygen.LocalPartySaveData) *ecdsa.PublicKey {
-	return &ecdsa.PublicKey{Curve: tss.S256(), X: k.ECDSAPub.X(), Y: k.ECDSAPub.Y()}
+	return &ecdsa.PublicKey{Curve: k.ECDSAPub.Curve(), X: k.ECDSAPub.X(), Y: k.ECDSAPub.Y()}
+}
+
+// recoversTo: public-key recovery on a short Weierstrass curve with a = -3 or 0 given by its parameters
+// (y^2 = x^3 + a x + b, a read off the generator), without any library-specific helper.
+func recoversTo(pub *ecdsa.PublicKey, r, s, m *big.Int, recid byte) bool {
+	cp := pub.Curve.Params()
+	p, q := cp.P, cp.N
+	x := new(big.Int).Set(r)
+	if recid&2 != 0 {
+		x.Add(x, q)
+	}
+	if x.Cmp(p) >= 0 {
+		return false
+	}
+	// a = (Gy^2 - Gx^3 - b) / Gx
+	gy2 := new(big.Int).Mul(cp.Gy, cp.Gy)
+	gx3 := new(big.Int).Exp(cp.Gx, big.NewInt(3), p)
+	a := new(big.Int).Sub(gy2, gx3)
+	a.Sub(a, cp.B).Mod(a, p)
+	a.Mul(a, new(big.Int).ModInverse(cp.Gx, p)).Mod(a, p)
+	y2 := new(big.Int).Exp(x, big.NewInt(3), p)
+	y2.Add(y2, new(big.Int).Mul(a, x)).Add(y2, cp.B).Mod(y2, p)
+	y := new(big.Int).ModSqrt(y2, p)
+	if y == nil {
+		return false
+	}
+	if y.Bit(0) != uint(recid&1) {
+		y.Sub(p, y)
+	}
+	if !pub.Curve.IsOnCurve(x, y) {
+		return false
+	}
+	rinv := new(big.Int).ModInverse(r, q)
+	if rinv == nil {
+		return false
+	}
+	u1 := new(big.Int).Mul(new(big.Int).Neg(m), rinv)
+	u1.Mod(u1, q)
+	u2 := new(big.Int).Mul(s, rinv)
+	u2.Mod(u2, q)
+	ax, ay := pub.Curve.ScalarBaseMult(u1.Bytes())
+	bx, by := pub.Curve.ScalarMult(x, y, u2.Bytes())
+	var qx, qy *big.Int
+	if u1.Sign() == 0 {
+		qx, qy = bx, by
+	} else {
+		qx, qy = pub.Curve.Add(ax, ay, bx, by)
+	}
+	return qx.Cmp(pub.X) == 0 && qy.Cmp(pub.Y) == 0
 }
 
 func cloneForKDD(keys []ecdsakeygen.LocalPartySaveData, delta *big.Int) []ecdsakeygen.LocalPartySaveData {
@@ -242,21 +324,25 @@ func cloneForKDD(keys []ecdsakeygen.LocalPartySaveData, delta *big.Int) []ecdsak
 }
 
 func genC01(r *vc.Run) {
-	r.Rule = "full ECDSA signing runs on the deterministic scheduler with the nonce shares k_i, gamma_i fixed through the reader, so that the Coq closed form (x = sum of Lagrange-weighted shares, R = k^-1 G, s = k(m + r x), low-S, recovery id, padding, echo) predicts the exact SignatureData: keys {vendored (5,2), generated (3,1),(3,2)...}, signer subsets of every size t+1..n, digests {0,1,q-1,q,q+1,2^256-1,leading zero bytes,random}, fullBytesLen {absent,32,33,64}; direct oracles: crypto/ecdsa and btcec verification, public-key recovery, fixed width, low S, echo, equality across signers, refusal of digests >= q before any message; non-trivial = all runs"
+	r.Rule = "full ECDSA signing runs on the deterministic scheduler with the nonce shares k_i, gamma_i fixed through the reader, so that the Coq closed form (x = sum of Lagrange-weighted shares, R = k^-1 G, s = k(m + r x), low-S, recovery id, padding, echo) predicts the exact SignatureData: keys {vendored (5,2), generated (3,1),(3,2)..., generated on NIST P-256 (a curve the application registers) with raw S forced to (q-1)/2, (q-1)/2+1 and just above the half}, signer subsets of every size t+1..n, digests {0,1,q-1,q,q+1,2^256-1,leading zero bytes,random}, fullBytesLen {absent,32,33,64}; direct oracles: crypto/ecdsa and (on secp256k1) btcec verification, public-key recovery (btcec on secp256k1, from the definition of the recovery byte elsewhere), fixed width, low S, echo, equality across signers, refusal of digests >= q before any message; non-trivial = all runs"
 	g := rng{r}
-	q := tss.S256().Params().N
 	type cfg struct {
 		ref     string
 		signers []int
 	}
-	cfgs := []cfg{{"fixture", []int{0, 1, 2}}, {"fixture", []int{4, 2, 0, 1}}, {"fixture", []int{0, 1, 2, 3, 4}}, {"kg:3:1", []int{0, 2}}, {"kg:3:1", []int{0, 1, 2}}}
+	// the last configuration is a key on P-256: the order, the low-S threshold and the byte widths all come from the
+	// curve of the party's parameters, never from the library default
+	cfgs := []cfg{{"fixture", []int{0, 1, 2}}, {"fixture", []int{4, 2, 0, 1}}, {"fixture", []int{0, 1, 2, 3, 4}}, {"kg:3:1", []int{0, 2}}, {"kg:3:1", []int{0, 1, 2}}, {"p256:kg:2:1", []int{0, 1}}}
 	if r.Thorough() {
+		cfgs = append(cfgs, cfg{"p256:kg:3:1", []int{0, 2}}, cfg{"p256:kg:3:2", []int{0, 1, 2}})
 		cfgs = append(cfgs, cfg{"fixture", []int{1, 3, 4}}, cfg{"kg:2:1", []int{0, 1}}, cfg{"kg:3:2", []int{0, 1, 2}}, cfg{"kg:4:2", []int{0, 1, 3}}, cfg{"kg:4:2", []int{0, 1, 2, 3}}, cfg{"kg:5:3", []int{0, 1, 2, 4}}, cfg{"kg:5:4", []int{0, 1, 2, 3, 4}})
 	}
-	digests := []*big.Int{big.NewInt(0), big.NewInt(1), add(q, -1), q, add(q, 1), add(pow2(256), -1), new(big.Int).Rsh(g.below(q), 17), g.below(q), g.below(q)}
 	full := []int{0, 32, 0, 0, 32, 0, 32, 33, 64}
 	nruns := 0
 	for ci, c := range cfgs {
+		ec := curveOfRef(c.ref)
+		q := ec.Params().N
+		digests := []*big.Int{big.NewInt(0), big.NewInt(1), add(q, -1), q, add(q, 1), add(pow2(256), -1), new(big.Int).Rsh(g.below(q), 17), g.below(q), g.below(q)}
 		keys, pids, _ := ecKeysByRef(c.ref)
 		// secret shares and ids of the signers in sorted-id order (what the model needs)
 		sk, sp := pickKeys(keys, pids, c.signers)
@@ -267,8 +353,19 @@ func genC01(r *vc.Run) {
 			xs[i] = new(big.Int).Set(sk[i].Xi)
 		}
 		pub := toECDSAPub(sk[0])
-		for di, m := range digests {
-			if !r.Thorough() && (di+ci)%3 != 0 && m.Cmp(q) < 0 && di > 1 {
+		// (digest index, forced raw S): -1 = the default schedule of classes; 0, 1 = raw S exactly (q-1)/2, (q-1)/2+1;
+		// 2 = raw S a little above the half (within 2^200 of it)
+		type item struct{ di, force int }
+		var items []item
+		for di := range digests {
+			items = append(items, item{di, -1})
+		}
+		if ec != tss.S256() {
+			items = append(items, item{2, 0}, item{2, 1}, item{2, 2})
+		}
+		for _, it := range items {
+			di, m := it.di, digests[it.di]
+			if !r.Thorough() && it.force < 0 && (di+ci)%3 != 0 && m.Cmp(q) < 0 && di > 1 {
 				continue
 			}
 			kis := make([]*big.Int, len(sp))
@@ -284,7 +381,7 @@ func genC01(r *vc.Run) {
 				for tries := 0; tries < 5000; tries++ {
 					kt := add(g.below(add(q, -1)), 1)
 					kinv := new(big.Int).ModInverse(kt, q)
-					Rp := crypto.ScalarBaseMult(tss.S256(), kinv)
+					Rp := crypto.ScalarBaseMult(ec, kinv)
 					if di%3 == 1 && Rp.X().BitLen() > 248 {
 						continue
 					}
@@ -302,8 +399,14 @@ func genC01(r *vc.Run) {
 						// choose the digest so that s = k(m + r x) is a small number: m = s k^-1 - r x
 						// (every other time: exactly at the low-S boundary, (q-1)/2 or (q-1)/2 + 1)
 						st := g.below(pow2(240))
-						if (ci+di)%2 == 1 {
+						if (ci+di)%2 == 1 && it.force < 0 {
 							st = add(new(big.Int).Rsh(add(q, -1), 1), int64((ci+di)/2%2))
+						}
+						switch it.force {
+						case 0, 1:
+							st = add(new(big.Int).Rsh(add(q, -1), 1), int64(it.force))
+						case 2:
+							st = new(big.Int).Add(add(new(big.Int).Rsh(add(q, -1), 1), 2), g.below(pow2(200)))
 						}
 						mm := new(big.Int).Mul(st, kinv)
 						mm.Sub(mm, new(big.Int).Mul(Rp.X(), x)).Mod(mm, q)
